@@ -39,11 +39,44 @@ ASSUMPTIONS = [
 BUDGET = {"quick": (260, 240), "thorough": (6000, 2700)}
 
 
+@st.composite
+def block_texts(draw):
+    """regular modules built from try / if / for / with blocks with comments and blank lines at drawn indentations between
+    the clauses - what the syntax fixer has to cope with when the line at the cursor is incomplete"""
+    def comment(ind):
+        k = draw(st.integers(0, 3))
+        return {0: "", 1: " " * ind + "# note\n", 2: "# note at column 0\n", 3: " " * draw(st.integers(1, max(1, ind))) + "# half indented\n"}[k]
+
+    out = ["import os\n", "text = 'abc'\n"]
+    depth = draw(st.integers(0, 2))
+    ind = 0
+    for d in range(depth):
+        out.append(" " * ind + draw(st.sampled_from(["def f%d(arg):\n" % d, "if text:\n", "for item in text:\n", "class K%d:\n" % d])))
+        ind += 4
+    kind = draw(st.sampled_from(["try_except", "try_finally", "try_except_finally", "if_else", "with"]))
+    body = " " * (ind + 4) + "shout = text.upper()\n" + " " * (ind + 4) + "value = os.sep\n"
+    if kind.startswith("try"):
+        out.append(" " * ind + "try:\n" + body + comment(ind))
+        if "except" in kind:
+            out.append(" " * ind + draw(st.sampled_from(["except ValueError:\n", "except (KeyError, OSError) as err:\n", "except:\n"])) + " " * (ind + 4) + "shout = text\n" + comment(ind))
+        if "finally" in kind:
+            out.append(" " * ind + "finally:\n" + " " * (ind + 4) + "value = text\n")
+    elif kind == "if_else":
+        out.append(" " * ind + "if text:\n" + body + comment(ind) + " " * ind + "else:\n" + " " * (ind + 4) + "shout = text\n")
+    else:
+        out.append(" " * ind + "with open(text) as fh:\n" + body + comment(ind))
+    out.append(" " * ind + "last = text\n")
+    if ind:
+        out.append("done = text\n")
+    return "".join(out)
+
+
 def strategy(tier):
     return st.one_of(
         projgen.projects().map(lambda c: dict(c, kind="proj")),
         projgen.projects().map(lambda c: dict(c, kind="proj")),
         srcgen.grammar(budget=22).map(lambda s: {"kind": "text", "src": s}),
+        block_texts().map(lambda s: {"kind": "text", "src": s}),
     )
 
 
@@ -257,6 +290,13 @@ def _definition_check(out, case, project, env):
         exp = expected(bid)
         if exp is None:
             continue
+        # input feature of a recorded finding: the defining assignment's value starts on a later line than its target
+        dl = case["files"][exp[0]].split("\n")[exp[1] - 1] if exp[0] in case["files"] and exp[1] else ""
+        if info["kind"] in ("local", "const", "inst") and dl.rstrip().endswith("= ("):
+            out.labels["definition_value_on_next_line"] += 1
+            if env.known("definition_line_is_where_the_value_starts"):
+                out.excluded["definition_line_is_where_the_value_starts"] += 1
+                continue
         for t in ts:
             src = case["files"][t[0]]
             res = project.get_file(t[0])
